@@ -16,7 +16,7 @@ var vrtErrPlugin = errors.New("vrt: plugin chain failed")
 // vrtEntry is the plugin chain: it records what it is shown and ends in one
 // of the three outcomes the handler distinguishes.
 type vrtEntry struct {
-	mode      int      // 0 error, 1 no response, 2 response
+	mode      int      // 0 error, 1 no response, 2 response, 3 a response was set and then a later plugin failed
 	resp      *dns.Msg // response to set (mode 2); built from the query at Exec time
 	build     func(q *dns.Msg) *dns.Msg
 	clientOpt *dns.OPT
@@ -50,6 +50,9 @@ func (e *vrtEntry) Exec(ctx context.Context, qCtx *query_context.Context) error 
 	}
 	e.resp = e.build(q)
 	qCtx.SetResponse(e.resp)
+	if e.mode == 3 {
+		return vrtErrPlugin // an earlier plugin attached an answer, a later one failed: the chain returned an error
+	}
 	return nil
 }
 
@@ -101,7 +104,7 @@ func vrtHarness_C03_handle() {
 	}
 	malformed := vrtOr(q.Response, nq != 1, len(q.Answer)+len(q.Ns) > 0, len(q.Extra) > 1)
 	qid := q.Id
-	ent := &vrtEntry{mode: vrtChoice(3), clientOpt: clientOpt}
+	ent := &vrtEntry{mode: vrtChoice(4), clientOpt: clientOpt}
 	if nq > 0 {
 		ent.origName, ent.origType, ent.origClass = q.Question[0].Name, q.Question[0].Qtype, q.Question[0].Qclass
 	}
@@ -152,8 +155,11 @@ func vrtHarness_C03_handle() {
 		vrtStrEq(m.Question[0].Name, ent.origName), m.Question[0].Qtype == ent.origType, m.Question[0].Qclass == ent.origClass))
 	vrtAssert("QR and RA are set", vrtAnd(m.Response, m.RecursionAvailable))
 	switch ent.mode {
-	case 0:
+	case 0, 3:
 		vrtCover("SERVFAIL on error", true)
+		if ent.mode == 3 {
+			vrtCover("error after an answer was attached", true)
+		}
 		vrtAssert("plugin error gives SERVFAIL", m.Rcode == dns.RcodeServerFailure)
 	case 1:
 		vrtCover("REFUSED on no answer", true)
